@@ -95,7 +95,7 @@ class Canon:
                 return ("n", d[1])
             if d[0] in ("s64", "u64"):
                 return d            # abstracts compare by value in the seen table
-            if d[0] in ("arr", "tab", "buf"):
+            if d[0] in ("arr", "tab", "buf", "warr", "wtabk", "wtabv", "wtabkv", "proto"):
                 return ("fresh", id(d))
         return None
 
@@ -120,9 +120,9 @@ class Canon:
             return 7
         if k in ("buf", "U"):
             return 8
-        if k in ("arr", "A"):
+        if k in ("arr", "A", "warr"):
             return 9
-        if k in ("tab", "T"):
+        if k in ("tab", "T", "wtabk", "wtabv", "wtabkv", "proto"):
             return 10
         return 11
 
@@ -201,11 +201,15 @@ class Canon:
             return pre + "s64:%d" % d[1]
         if k == "u64":
             return pre + "u64:%d" % d[1]
-        if k == "arr":
+        if k in ("arr", "warr"):
             return pre + "@[" + " ".join(self._go(x, seen) for x in d[1:]) + "]"
-        if k == "tab":
+        if k in ("tab", "wtabk", "wtabv", "wtabkv"):
             kvs = [(d[i], d[i + 1]) for i in range(1, len(d), 2)]
             return pre + "@{" + self._pairs(kvs, seen) + "}"
+        if k == "proto":
+            t = d[1]
+            kvs = [(t[i], t[i + 1]) for i in range(1, len(t), 2)]
+            return pre + "@{" + self._pairs(kvs, seen) + "}^" + self._go(d[2], seen)
         if k == "buf":
             return pre + '@"' + hexbytes(strbytes(d[1], d[2])) + '"'
         if k == "n":
@@ -370,7 +374,7 @@ def jdesc(d):
         return ":" + d[1]
     if k in ("s64", "u64"):
         return '[:%s "%d"]' % (k, d[1])
-    if k in ("arr", "tup", "btup", "tab", "struct"):
+    if k in ("arr", "tup", "btup", "tab", "struct", "warr", "wtabk", "wtabv", "wtabkv", "proto"):
         return "[:%s %s]" % (k, " ".join(jdesc(x) for x in d[1:]))
     raise ValueError(d)
 
